@@ -21,8 +21,8 @@ pub fn info() -> PropInfo {
     PropInfo {
         id: "C11",
         level: "exploration",
-        rule: "generated trees: directories '', a, a/b, a/b/c, z and a directory named d.txtpp; sources in the three name shapes crossed with stems containing 0, 1 and 2 dots (s.txt.txtpp, s.txtpp.md, s.txtpp, p.q.txt.txtpp, p.q.txtpp.md, p.q.txtpp, u.v.w.txtpp.x) and a non-ASCII name; look-alikes that are not sources (txtpp, .txtpp, n.txtpp.b.c, x.txtppx); some sources include the output of a source in another directory (dependency). Input lists of 1-3 entries from {directories (plain, ./, dir/../dir, absolute), sources by .txtpp name, by output name, with ./ or absolute, duplicates and aliases of the same file, missing targets, look-alike names} x recursive on/off x (process cwd == base | cwd below base | cwd unrelated '/' | base given relative to the cwd) through the library entry, and a CLI sample with relative inputs. Observation: build from an output-free tree (which outputs appear, bytes vs model, marker count per source), clean over planted outputs for every source (which disappear), verify after a full build (marker count per source). Expected set = selected sources (+ transitive .txtpp dependencies for build and verify); a missing target must fail the run. Non-trivial = the selection is a proper non-empty subset of the sources or an alias/duplicate/missing target is involved; distinct = distinct (tree, inputs, flags, mode).",
-        assumptions: &["D10: every output path has exactly one source; no symlinks", "marker commands sit after the dependency directives (two-pass execution before the first dependency is documented behaviour)"],
+        rule: "generated trees: directories '', a, a/b, a/b/c, z and a directory named d.txtpp; sources in the three name shapes crossed with stems containing 0, 1 and 2 dots (s.txt.txtpp, s.txtpp.md, s.txtpp, p.q.txt.txtpp, p.q.txtpp.md, p.q.txtpp, u.v.w.txtpp.x) and a non-ASCII name; look-alikes that are not sources (txtpp, .txtpp, n.txtpp.b.c, x.txtppx); in a quarter of the trees a symbolic link to a source in another directory and/or a symbolic link to a directory (a linked source counts as its target: processed once, output beside the target); some sources include the output of a source in another directory (dependency). Input lists of 1-3 entries from {directories (plain, ./, dir/../dir, absolute), sources by .txtpp name, by output name, with ./ or absolute, duplicates and aliases of the same file, missing targets, look-alike names} x recursive on/off x (process cwd == base | cwd below base | cwd unrelated '/' | base given relative to the cwd) through the library entry, and a CLI sample with relative inputs. Observation: build from an output-free tree (which outputs appear, bytes vs model, marker count per source), clean over planted outputs for every source (which disappear), verify after a full build (marker count per source). Expected set = selected sources (+ transitive .txtpp dependencies for build and verify); a missing target must fail the run. Non-trivial = the selection is a proper non-empty subset of the sources or an alias/duplicate/missing target is involved; distinct = distinct (tree, inputs, flags, mode).",
+        assumptions: &["D10: every output path has exactly one source; symbolic links only in the two shapes listed in the rule", "marker commands sit after the dependency directives (two-pass execution before the first dependency is documented behaviour)"],
         floor: (400, 6000),
         shards: (16, 16),
         run,
@@ -36,6 +36,8 @@ const LOOKALIKES: [&str; 4] = ["txtpp", ".txtpp", "n.txtpp.b.c", "x.txtppx"];
 
 #[derive(Debug, Clone)]
 struct Case {
+    /// (link path, link target as written in the link, canonical project path it resolves to)
+    symlinks: Vec<(String, String, String)>,
     files: Files,
     inputs: Vec<String>,
     recursive: bool,
@@ -93,6 +95,40 @@ fn gen_tree(r: &mut StdRng, mlog: &Path) -> Files {
     }
     let _ = outs;
     files
+}
+
+/// symbolic links inside the tree: a link to a source in another directory and a link to a directory
+fn gen_links(r: &mut StdRng, files: &Files) -> Vec<(String, String, String)> {
+    let mut v = vec![];
+    let srcs: Vec<String> = files.keys().filter(|k| model::is_txtpp(k) && !k.starts_with("z/")).cloned().collect();
+    if r.gen_bool(0.25) && !srcs.is_empty() {
+        let t = &srcs[r.gen_range(0..srcs.len())];
+        v.push(("z/lnk.txt.txtpp".to_string(), format!("../{t}"), t.clone()));
+    }
+    if r.gen_bool(0.15) {
+        v.push(("zl".to_string(), "a/b".to_string(), "a/b".to_string()));
+    }
+    v
+}
+
+/// the tree as the scanner sees it (links followed), and the mapping back to canonical sources
+fn link_view(files: &Files, links: &[(String, String, String)]) -> (Files, std::collections::BTreeMap<String, String>) {
+    let mut view = files.clone();
+    let mut back = std::collections::BTreeMap::new();
+    for (link, _, canon) in links {
+        if files.contains_key(canon) {
+            view.insert(link.clone(), files[canon].clone());
+            back.insert(link.clone(), canon.clone());
+        } else {
+            for (k, v) in files {
+                if let Some(rest) = k.strip_prefix(&format!("{canon}/")) {
+                    view.insert(format!("{link}/{rest}"), v.clone());
+                    back.insert(format!("{link}/{rest}"), k.clone());
+                }
+            }
+        }
+    }
+    (view, back)
 }
 
 fn gen_inputs(r: &mut StdRng, files: &Files, root: &Path) -> Vec<String> {
@@ -197,14 +233,21 @@ fn check(ctx: &mut Ctx, case: &Case, mlog: &Path, via_cli: bool) {
     let cj = || {
         let mut f = files.clone();
         f.insert("__root__".into(), root.to_string_lossy().as_bytes().to_vec());
-        json!({"files": files_json(&f), "inputs": inputs, "recursive": case.recursive, "cwd_kind": case.cwd_kind, "mode": crate::run::mode_name(&case.mode), "threads": case.threads, "via_cli": via_cli, "mlog": mlog.to_string_lossy()})
+        json!({"symlinks": case.symlinks.iter().map(|(a, b, c)| vec![a.clone(), b.clone(), c.clone()]).collect::<Vec<_>>(), "files": files_json(&f), "inputs": inputs, "recursive": case.recursive, "cwd_kind": case.cwd_kind, "mode": crate::run::mode_name(&case.mode), "threads": case.threads, "via_cli": via_cli, "mlog": mlog.to_string_lossy()})
     };
     // expected selection
     let rel_inputs = rebase_inputs(&inputs, &root);
-    let selected = rel_inputs.as_ref().and_then(|ri| selected_sources(&files, ri, case.recursive));
+    let (view, back) = link_view(&files, &case.symlinks);
+    let selected: Option<BTreeSet<String>> = rel_inputs
+        .as_ref()
+        .and_then(|ri| selected_sources(&view, ri, case.recursive))
+        .map(|s| s.into_iter().map(|p| back.get(&p).cloned().unwrap_or(p)).collect());
     let expected: Option<BTreeSet<String>> = selected.as_ref().map(|s| if matches!(case.mode, Mode::Clean) { s.clone() } else { deps_closure(&files, s) });
     // tree preparation per mode
     materialize(&root, &files, &[]);
+    for (link, target, _) in &case.symlinks {
+        let _ = std::os::unix::fs::symlink(target, root.join(link));
+    }
     let all_sources: Vec<String> = srcs.clone();
     let full = model::evaluate(&files, &root.to_string_lossy(), true, &all_sources);
     if full.out_of_domain.is_some() || full.verdict.is_err() {
@@ -272,6 +315,9 @@ fn check(ctx: &mut Ctx, case: &Case, mlog: &Path, via_cli: bool) {
     let counts = marker_counts(mlog);
     ctx.cover("modes", crate::run::mode_name(&case.mode));
     ctx.cover("cwd_kinds", &case.cwd_kind.to_string());
+    if !case.symlinks.is_empty() {
+        ctx.count("cases_with_symbolic_links", 1);
+    }
     let mname = crate::run::mode_name(&case.mode);
     match &expected {
         None => {
@@ -357,8 +403,15 @@ fn run(ctx: &mut Ctx) {
         let fake_root = PathBuf::from("/GENROOT");
         let mut f = files.clone();
         f.insert("__root__".into(), b"/GENROOT".to_vec());
-        let inputs = gen_inputs(&mut r, &files, &fake_root);
+        let mut inputs = gen_inputs(&mut r, &files, &fake_root);
+        let symlinks = gen_links(&mut r, &files);
+        for (link, _, _) in &symlinks {
+            if r.gen_bool(0.3) {
+                inputs.push(link.clone());
+            }
+        }
         let case = Case {
+            symlinks,
             files: f,
             inputs,
             recursive: r.gen_bool(0.5),
@@ -376,6 +429,7 @@ fn run(ctx: &mut Ctx) {
 
 fn replay(ctx: &mut Ctx, v: &Value) {
     let case = Case {
+        symlinks: v["symlinks"].as_array().map(|a| a.iter().filter_map(|x| Some((x.get(0)?.as_str()?.to_string(), x.get(1)?.as_str()?.to_string(), x.get(2)?.as_str()?.to_string()))).collect()).unwrap_or_default(),
         files: files_from_json(&v["files"]),
         inputs: v["inputs"].as_array().map(|a| a.iter().filter_map(|x| x.as_str().map(String::from)).collect()).unwrap_or_default(),
         recursive: v["recursive"].as_bool().unwrap_or(false),
